@@ -133,11 +133,31 @@ void h_run(Ctx &c)
 		CHECK(c, e0 == !avail && e1 == !avail, "messageq_empty=%d/%d but receive would%s return a message", e0, e1,
 		      avail ? "" : " not");
 	};
-	for (long i = 0; i < precycle && !c.failed; i++) {
+	// rolling pre-cycle: k messages stay outstanding throughout (k = depth: the queue is full whenever a counter
+	// wraps, and every round also asks a full queue for one more buffer)
+	unsigned hold = 0;
+	if (precycle > 0 && c.feat(2) && !t.enumerating && t.flip()) {
+		hold = t.flip() ? depth : (unsigned)t.choose(depth + 1);
+		if (hold == depth)
+			c.cls("pre-cycled-with-the-queue-full");
+	}
+	for (unsigned i = 0; i < hold && !c.failed; i++) {
 		do_claim();
 		do_send(claimed - 1);
-		do_receive();
-		do_release();
+	}
+	for (long i = 0; i < precycle && !c.failed; i++) {
+		if (hold == depth)
+			do_claim(); // full: must be refused
+		if (hold) {
+			do_receive();
+			do_release();
+		}
+		do_claim();
+		do_send(claimed - 1);
+		if (!hold) {
+			do_receive();
+			do_release();
+		}
 	}
 	for (long step = 0; step < nops && !c.failed; step++) {
 		if (!t.enumerating || true)
